@@ -26,6 +26,49 @@ def regenerate(res):
     _c15.regenerate(res)
 
 
+def spell(rng, ch):
+    """the same channel, written the ways a command line writes it: not necessarily in normal form"""
+    r = rng.random()
+    if r < 0.5:
+        return ch
+    if r < 0.65:
+        return ch + "/"
+    if r < 0.8:
+        return "./" + ch
+    if r < 0.9 and "/" in ch:
+        return ch.replace("/", "//", 1) if rng.random() < 0.5 else ch.replace("/", "/./", 1)
+    return rng.choice([ch + "//", "./" + ch + "/", " " + ch])
+
+
+def subtree(ct, path):
+    node = ct
+    for comp in path.split("/"):
+        if not isinstance(node, dict) or comp not in node:
+            return None
+        node = node[comp]
+    return node
+
+
+def overlapping(chs):
+    for i, a in enumerate(chs):
+        for j, b in enumerate(chs):
+            if i != j and (a == b or b.startswith(a + "/")):
+                return True
+    return False
+
+
+def remove_path(ct, path):
+    comps = path.split("/")
+    node = ct
+    for c in comps[:-1]:
+        node = node[c]
+    del node[comps[-1]]
+
+
+def deep(ct):
+    return json.loads(json.dumps(ct))
+
+
 def strip_gone(node):
     if node is None:
         return None
@@ -152,8 +195,13 @@ def run(res):
     for ti, (tname, tree) in enumerate(trees):
         ct = assign_contents(tree, counter)
         times = c14.tree_times(tree)
+        # channel paths relative to src: top-level directories and one level below (e.g. grp/Z0);
         # (a timestamped subdirectory given as "channel" is the entry case of ilsdrf, covered by C14)
         chans = [n for n, c in ct.items() if isinstance(c, dict) and L.parse_subdir(n) is None]
+        for n in list(chans):
+            for n2, c2 in ct[n].items():
+                if isinstance(c2, dict) and L.parse_subdir(n2) is None and rng.random() < 0.5:
+                    chans.append(n + "/" + n2)
         for k in range(per_tree):
             op = rng.choice(OPS)
             r = rng.random()
@@ -161,10 +209,11 @@ def run(res):
                 chs_arg, pairs = None, [("", "")]
             elif r < 0.6:
                 ch = rng.choice(chans)
-                chs_arg, pairs = [ch], [(ch, ch)]
+                chs_arg, pairs = [spell(rng, ch)], [(ch, ch)]
             elif r < 0.9:
                 sel = rng.sample(chans, min(len(chans), rng.choice([1, 2, 3])))
-                chs_arg, pairs = [",".join(sel)] if rng.random() < 0.5 else sel, [(c, c) for c in sel]
+                sp = [spell(rng, c) for c in sel]
+                chs_arg, pairs = [rng.choice([",", ", ", " ,"]).join(sp)] if rng.random() < 0.5 else sp, [(c, c) for c in sel]
             else:
                 chs_arg, pairs = ["nosuchchannel"], [("nosuchchannel", "nosuchchannel")]
             only = rng.random() < 0.3
@@ -193,19 +242,27 @@ def run(res):
                 dst_store["unrelated/keep.txt"] = counter[0]
             metas.append(dict(ti=ti, tname=tname, ct=ct, op=op, chs=chs_arg, pairs=pairs, only=only, reverse=reverse,
                               st=st, en=en, en_rel=en_rel, fl=fl, dmode=dmode, dst=dst_store))
-    # ---- model: one runner case per (src, dest) pair
+    # ---- model: one runner case per (src, dest) pair; when the selected channels overlap (one
+    # contains another, or one is named twice) the pairs see each other's effects and are evaluated
+    # one after the other instead
+    def model_case(m, src_ct, dsub):
+        return ([30, OPS.index(m["op"])] + list(c14.FIXED) + L.enc_flags(m["fl"]) + L.enc_opt(m["st"]) +
+                L.enc_opt(m["en"]) + [int(not m["only"]), int(m["reverse"])] +
+                (enc_cnode(src_ct) if src_ct is not None else [2]) + enc_store(dsub))
+
     for m in metas:
         m["model_idx"] = []
+        m["sequential"] = overlapping([p[0] for p in m["pairs"]])
+        if m["sequential"]:
+            continue
         for (sch, dch) in m["pairs"]:
-            src_ct = m["ct"] if sch == "" else m["ct"].get(sch, None)
+            src_ct = m["ct"] if sch == "" else subtree(m["ct"], sch)
             if not isinstance(src_ct, dict):
                 src_ct = None
             pre = (dch + "/") if dch else ""
             dsub = {p[len(pre):]: c for p, c in m["dst"].items() if p.startswith(pre)}
             m["model_idx"].append(len(cases))
-            cases.append([30, OPS.index(m["op"])] + list(c14.FIXED) + L.enc_flags(m["fl"]) + L.enc_opt(m["st"]) +
-                         L.enc_opt(m["en"]) + [int(not m["only"]), int(m["reverse"])] +
-                         (enc_cnode(src_ct) if src_ct is not None else [2]) + enc_store(dsub))
+            cases.append(model_case(m, src_ct, dsub))
     rows = common.run_model("listing", cases)
     # ---- implementation + oracle
     for mi, m in enumerate(metas):
@@ -258,13 +315,24 @@ def run(res):
         res.count("chs:" + ("none" if not m["chs"] else "missing" if m["chs"] == ["nosuchchannel"] else "some"))
         # model result assembled over the pairs
         m_src, m_dst, m_err = dict(src_before), dict(m["dst"]), None
-        for (sch, dch), idx in zip(m["pairs"], m["model_idx"]):
-            code, s2, d2 = dec_stores(rows[idx])
+        cur_ct = deep(m["ct"])
+        for pi, (sch, dch) in enumerate(m["pairs"]):
             spre = (sch + "/") if sch else ""
             dpre = (dch + "/") if dch else ""
-            for p in [p for p in m_src if p.startswith(spre)]:
+            if m["sequential"]:
+                src_ct = cur_ct if sch == "" else subtree(cur_ct, sch)
+                if not isinstance(src_ct, dict):
+                    src_ct = None
+                dsub = {p[len(dpre):]: c for p, c in m_dst.items() if p.startswith(dpre)}
+                row = common.run_model("listing", [model_case(m, src_ct, dsub)])[0]
+                res.count("sequential-pairs")
+            else:
+                row = rows[m["model_idx"][pi]]
+            code, s2, d2 = dec_stores(row)
+            gone = [p for p in m_src if p.startswith(spre) and p[len(spre):] not in s2]
+            for p in gone:
                 del m_src[p]
-            m_src.update({spre + p: c for p, c in s2.items()})
+                remove_path(cur_ct, p)
             for p in [p for p in m_dst if p.startswith(dpre)]:
                 del m_dst[p]
             m_dst.update({dpre + p: c for p, c in d2.items()})
@@ -279,8 +347,9 @@ def run(res):
         # ---- property oracle (independent listing Spec of C14)
         exp_src, exp_dst, listed_all, exp_err = dict(src_before), dict(m["dst"]), [], None
         undecided = False
+        cur = deep(m["ct"])
         for (sch, dch) in m["pairs"]:
-            sub = erase(m["ct"]) if sch == "" else erase(m["ct"]).get(sch)
+            sub = erase(cur) if sch == "" else subtree(erase(cur), sch)
             if not isinstance(sub, dict):
                 continue
             try:
@@ -301,6 +370,7 @@ def run(res):
                 listed_all.append((sp, dp))
                 if m["op"] == "mv":
                     del exp_src[sp]
+                    remove_path(cur, sp)
             if exp_err:
                 break
         if undecided:
@@ -308,7 +378,7 @@ def run(res):
         else:
             if (impl_src, impl_dst, err) != (exp_src, exp_dst, exp_err):
                 sig = ("transfer-raises-" + str(err)) if err != exp_err else \
-                      "source-changed" if impl_src != exp_src else "destination-set-differs"
+                      "source-differs" if impl_src != exp_src else "destination-set-differs"
                 res.violation(sig, "cp/mv/ln did not transfer exactly the listed set", inp,
                               {"src": exp_src, "dst": exp_dst, "err": exp_err}, {"src": impl_src, "dst": impl_dst, "err": err})
             else:
